@@ -102,7 +102,7 @@ def shapes(tier):
                     continue
                 if ctx.startswith('ref-') and (len(els_) > 1 or (tier == 'quick' and els_[0].kind == 'str' and len(els_[0].a) > 1)):
                     continue
-                if ctx.startswith('size-inter') and ('^' in ops or (tier == 'quick' and len(els_) > 1 and els_[0].kind == els_[1].kind == 'str')):
+                if ctx.startswith('size-inter') and (('^' in ops and (ctx.startswith('size-inter-ext') or len(els_) > 2)) or (tier == 'quick' and '^' not in ops and len(els_) > 1 and els_[0].kind == els_[1].kind == 'str')):
                     # FROM and SIZE joined by an intersection inside ONE constraint (folded by fold_constraint_set)
                     continue
                 c = f"(FROM ({inner}))"
